@@ -62,8 +62,8 @@ def c16_stages(ctx):
     graph_stage(ctx, "fscore-quick", "MC_FSCore.tla", "FSCore.quick.cfg", "fscore", FS_ADAPTERS, ["--names", "a,b", "--depth", "3"])
 
 
-SUB_SPEC = ["sub=d=mem", "sub=d/e=kvplain", "sub=d=sub=e=mem", "sub=d=oshp", "sub=d=sub=.=oshp", "sub=d=mntat", "sub=.=mem", "sub=.=sub=d=mem"]   # state follows FSCore inside the view
-SUB_TWIN = ["sub=d=openonly", "sub=d=mntabove", "sub=d/e=mntnested", "sub=d=mntatnested"]                                              # twin comparison only
+SUB_SPEC = ["sub=d=mem", "sub=d/e=kvplain", "sub=d=sub=e=mem", "sub=d=oshp", "sub=d=sub=.=oshp", "sub=d=mntat", "sub=.=mem", "sub=.=sub=d=mem", "sub=d/a=mem"]   # state follows FSCore inside the view
+SUB_TWIN = ["sub=d=openonly", "sub=d=mntabove", "sub=d/e=mntnested", "sub=d=mntatnested", "sub=dx=mntsibling"]                                              # twin comparison only
 
 
 def sub_stages(ctx, wf="-"):
@@ -88,10 +88,14 @@ def c05_all(ctx):
     mount_stages(ctx)
     sub_stages(ctx)
     links_stage(ctx)  # lib/checks_helpers.py: error type and path fields of Symlink / Lstat failures
+    # failing system calls through os.FS with no root at all and under 1..3 Sub roots: the caller's names in every error
+    graph_stage(ctx, "ospath-oserr", "MC_OSPath.tla", "OSPath.oserr.cfg", "ospath", ["oserr", "oserr0"], ["--attr", "map:C05,err:C05"], workers=4)
 
 
 def c07_stages(ctx):
     sub_stages(ctx)
+    # names that are no paths (.., a/../.., trailing slash ...) through a view and as the directory of a nested Sub: refused, nothing reached
+    namegate_stages(ctx, adapters=["subview:d"], attr="state:C07,err:C07")
     trace_stage(ctx)  # recorded executions incl. Sub views of mem and of os.FS, judged as file systems of their own
 
 
